@@ -54,6 +54,7 @@ func runC01(c *Ctx) {
 		c.shared("R21", "C05/R7", "a pattern that does not compile is an error, not a panic: program data is compiled as a regular expression by the match operators only, where the compile error is reported (no MustCompile on a value of the program)", keyHas("pattern-compiled-by-the-match-only"), func(s *Ctx) { c05Regex(s, eb) })
 	}
 	c.shared("R22", "C12/R1", "building an error never crashes: Evaluator.error, Parser.error and Lexer.error do nothing but look up line and column (an error report that also walks the frame stack into a fixed array panics at the depth limit)", keyHas("funnel "), runC12)
+	c.shared("R23", "C16/R3", "no nil cell ever sits in an object: pluck stores a cell of its own for every requested key, the absent ones included (printing or iterating the result dereferences every member)", keyHas("pluck-stores", "pluck-present-key", "pluck-absent"), runC16)
 	c.shared("R16", "C20/R13", "never a Go runtime crash: the Go stack a run uses is bounded — between two frame pushes (each with its depth test) the evaluator does not recurse to a depth that grows with the program text", keyHas("recursion-between-frames"), func(s *Ctx) { recursionBetweenFrames(s, "R13") })
 	c.shared("R15", "C10/R6", "no evaluator is used half-built: all interpreter state is the documented set, created by the one constructor — a map field added for a cache and made in only one of the two entry points is a nil-map panic in the other", keyHas("evaluator-state", "syntax-tree-store", "interpreter-state"), func(s *Ctx) { interpreterState(s, "R6") })
 	c.shared("R13", "C12/R8", "building an error message never crashes: the line / column computation is the recognised scan over byte offsets, which slices the source text only between a recorded line start and the scan index (no computed bound that an empty text or an end position could push out of range)", keyHas("scan-index", "line-", "column", "source-line"), c12LineColArithmetic)
